@@ -234,30 +234,6 @@ example : (onError (.escaped .typeError) ⟨false, some true⟩).conn = ⟨true,
   harness on the real code.
 -/
 
-theorem chkTls13_total (h : CH) (hd : h.supportedVersions.isDup = false)
-    (hn : h.supportedVersions.isPresentNone = false) (h1 : h.psk.isDup = false)
-    (h2 : h.pskModes.isDup = false) (h3 : h.keyShare.isDup = false) (h4 : h.supGroups.isDup = false)
-    (h5 : h.pha.isDup = false) (h6 : h.sigAlgs.isDup = false) (h7 : h.earlyData.isDup = false) :
-    ∃ r, chkTls13 h = .ok r := by
-  unfold chkTls13
-  rcases offers13_total h hd hn with ho | ⟨vs, hs, ho⟩
-  · rw [ho]; exact ⟨_, rfl⟩
-  · rw [ho, hs]
-    simp only
-    apply chkPsk_total h _ _ h1 h2 h3 h4 h5
-    intro b
-    obtain ⟨r1, e1⟩ := chkKeyShare_total h vs b h4 h3
-    rw [e1]
-    cases r1 with
-    | some a => exact ⟨_, rfl⟩
-    | none =>
-      obtain ⟨r2, e2⟩ := chkKeyExchange_total h b h6 h1 h2
-      simp only
-      rw [e2]
-      cases r2 with
-      | some a => exact ⟨_, rfl⟩
-      | none => exact chkEarlyData_total h h7 h1
-
 /-- ClientHello: with the exceptions spelled out as hypotheses (no duplicated extension type,
     supported_versions not present with an empty body), NO combination of the
     modelled features — absent / present / empty lists / empty names / mismatching counts /
@@ -298,7 +274,7 @@ def plainCH : CH :=
     supGroups := .present (some [29, 23]), keyShare := .absent, earlyData := .absent,
     heartbeat := .absent, recordSizeLimit := .absent, certType := .absent }
 
-def plainSrv : SrvSettings := ⟨0x0301, [0x0304, 0x0303, 0x0302, 0x0301]⟩
+def plainSrv : SrvSettings := ⟨0x0301, 0x0304, [0x0304, 0x0303, 0x0302, 0x0301]⟩
 
 /-- non-vacuity: the ordinary hello meets the hypotheses and passes; a TLS 1.3 one as well -/
 example : plainCH.noDup = true ∧ chChecks plainSrv plainCH = .ok .pass := ⟨rfl, rfl⟩
@@ -339,74 +315,6 @@ theorem certTypeCheck_total_partial (s : SrvSettings) (h : CH) (hd : h.certType.
 
 /-! ServerHello -/
 
-theorem shkTls13_total (c : CliState) (h : SH) (hd : h.supportedVersions.isDup = false)
-    (h1 : h.keyShare.isDup = false) (h2 : h.psk.isDup = false)
-    (hsel : ∀ rv, shRealVersion h = .ok rv → 0x0303 < rv → h.selectionOk c = true) :
-    ∃ r, shkTls13 c h = .ok r := by
-  unfold shkTls13
-  have hrv : ∃ rv, shRealVersion h = .ok rv := by
-    unfold shRealVersion
-    split
-    · cases hs : h.supportedVersions with
-      | dup => rw [hs] at hd; exact Bool.noConfusion hd
-      | absent => exact ⟨_, rfl⟩
-      | present v => exact ⟨_, rfl⟩
-    · exact ⟨_, rfl⟩
-  obtain ⟨rv, hr⟩ := hrv
-  rw [hr]
-  simp only
-  split
-  · exact ⟨_, rfl⟩
-  · rename_i hlt
-    have hs := hsel rv hr (Nat.lt_of_not_le hlt)
-    rw [withExt_ok _ _ h1, withExt_ok _ _ h2]
-    unfold SH.selectionOk at hs
-    cases hk : h.keyShare with
-    | dup => rw [hk] at h1; exact Bool.noConfusion h1
-    | absent =>
-      cases hp : h.psk with
-      | dup => rw [hp] at h2; exact Bool.noConfusion h2
-      | absent => simp [hk, hp, Ext.toOption] at hs
-      | present sel =>
-        rcases sel with _ | i
-        · simp [hk, hp] at hs
-        · cases hn : c.pskIdsSent with
-          | none => simp [hk, hp, hn] at hs
-          | some n =>
-            simp only [hk, hp, hn, Ext.toOption, Bool.true_and, Bool.and_eq_true, decide_eq_true_eq] at hs
-            simp [Ext.toOption, done, hs.1]
-    | present ks =>
-      rcases ks with _ | g
-      · simp [hk] at hs
-      · cases hsn : c.sharesSent with
-        | none => simp [hk, hsn] at hs
-        | some sent =>
-          cases hp : h.psk with
-          | dup => rw [hp] at h2; exact Bool.noConfusion h2
-          | absent =>
-            simp only [hk, hp, hsn, Ext.toOption, Bool.and_eq_true] at hs
-            have hg : g ∈ sent := by simpa using hs.1.1
-            simp [Ext.toOption, done, hg]
-          | present sel =>
-            rcases sel with _ | i
-            · simp [hk, hp, hsn] at hs
-            · cases hn : c.pskIdsSent with
-              | none => simp [hk, hp, hsn, hn] at hs
-              | some n =>
-                simp only [hk, hp, hsn, hn, Ext.toOption, Bool.and_eq_true, decide_eq_true_eq] at hs
-                have hg : g ∈ sent := by simpa using hs.1.1
-                simp [Ext.toOption, done, hg, hs.1.2]
-
-theorem shRealVersion_total (h : SH) (hd : h.supportedVersions.isDup = false) :
-    ∃ rv, shRealVersion h = .ok rv := by
-  unfold shRealVersion
-  split
-  · cases hs : h.supportedVersions with
-    | dup => rw [hs] at hd; exact Bool.noConfusion hd
-    | absent => exact ⟨_, rfl⟩
-    | present v => exact ⟨_, rfl⟩
-  · exact ⟨_, rfl⟩
-
 /-- ServerHello: with the exceptions spelled out (no duplicated extension type; in TLS 1.3 the
     selected key share / PSK present, well formed and among what was offered), no combination of
     the modelled features ends in an unrelated exception. -/
@@ -427,7 +335,8 @@ theorem server_hello_checks_total_partial (c : CliState) (h : SH) (hnd : h.noDup
       finish_chk
     · simp only [shkBasics, alertIf, done]
       finish_chk
-    · simp only [shkEms, withExt_ok _ _ d2, alertIf, done]
+    · obtain ⟨rv, hr⟩ := shRealVersion_total h d1
+      simp only [shkEms, hr, withExt_ok _ _ d2, alertIf, done]
       finish_chk
     · simp only [shkAlpn, withExt_ok _ _ d3]
       cases h.alpn.toOption with
@@ -441,7 +350,7 @@ theorem server_hello_checks_total_partial (c : CliState) (h : SH) (hnd : h.noDup
     · exact shkTls13_total c h d1 d6 d7 hsel
 
 def plainSH12 : SH :=
-  { parseError := false, serverVersion := 0x0303, supportedVersions := .absent, hrrCipherMismatch := false,
+  { parseError := false, serverVersion := 0x0303, supportedVersions := .absent, aligned := true, hrrCipherMismatch := false,
     sessionIdEchoed := true, cipherOffered := true, certTypeOffered := true, compressionNull := true,
     tack := false, npn := false, ems := .present (), alpn := .absent, alpnFirstOffered := true,
     heartbeat := .absent, recordSizeLimit := .absent, keyShare := .absent, psk := .absent }
